@@ -24,6 +24,18 @@ func c10Corpus(r *rand.Rand, n int) ([]*genReq, [][]byte) {
 		gs[i] = c02Gen(r, i) // all methods, 0..3 biases, ~10% rejected (validation panics next to successes)
 		bs[i] = gs[i].body()
 	}
+	// every entry of the constraint catalogue once (one applicable method each): all validation paths run next to successes
+	for _, cst := range constraints {
+		ms := cst.methods
+		if ms == nil {
+			ms = methods
+		}
+		g := validBase(ms[r.Intn(len(ms))], r)
+		cst.apply(g.M)
+		g.invalid = true
+		gs = append(gs, g)
+		bs = append(bs, g.body())
+	}
 	return gs, bs
 }
 
@@ -111,6 +123,7 @@ func c10Server(c *caseCtx) {
 		N = 500
 	}
 	gs, bodies := c10Corpus(c.rng, N)
+	N = len(bodies)
 	// a second baseline through the library in this (fresh) process: the valid requests first, so that nothing a
 	// rejected request may leave behind in shared state can be part of it
 	libBase := make([]decision, N)
@@ -282,6 +295,7 @@ func c10InProc(c *caseCtx) {
 		N, reps = 300, 12
 	}
 	gs, bodies := c10Corpus(c.rng, N)
+	N = len(bodies)
 	prefix := filepath.Join(*fWorkDir, "race-harness")
 	before, _ := raceReports(fmt.Sprintf("%s.%d", prefix, os.Getpid()))
 	var mu sync.Mutex
